@@ -6,18 +6,22 @@ mod generated;
 
 use std::str::FromStr;
 
-use anyhow::{Context, Result};
+use anyhow::{bail, Context, Result};
 pub use generated::*;
 use peginator::{ParseError, PegParser};
 use proc_macro2::TokenStream;
 use quote::{format_ident, quote};
 
-use super::common::{safe_ident, CodegenGrammar, CodegenRule, CodegenSettings};
+use super::common::{
+    check_name, check_path, is_valid_ident, safe_ident, CodegenGrammar, CodegenRule,
+    CodegenSettings,
+};
 use super::include_rule::check_include_cycles;
 
 impl CodegenGrammar for Grammar {
     fn generate_code(&self, settings: &CodegenSettings) -> Result<TokenStream> {
         check_include_cycles(self)?;
+        self.check_names()?;
         let mut all_types = TokenStream::new();
         let mut all_parsers = TokenStream::new();
         let mut all_impls = TokenStream::new();
@@ -107,6 +111,73 @@ impl CodegenGrammar for Grammar {
                 #all_impls
             }
         ))
+    }
+}
+
+impl Grammar {
+    /// Every name that ends up as a Rust identifier in the generated code has to be one;
+    /// say so here instead of panicking deep inside the code generator.
+    fn check_names(&self) -> Result<()> {
+        fn check_fields(choice: &Choice) -> Result<()> {
+            for part in choice.choices.iter().flat_map(|s| &s.parts) {
+                match part {
+                    DelimitedExpression::Group(e) => check_fields(&e.body)?,
+                    DelimitedExpression::Optional(e) => check_fields(&e.body)?,
+                    DelimitedExpression::Closure(e) => check_fields(&e.body)?,
+                    DelimitedExpression::NegativeLookahead(e) => check_expression(&e.expr)?,
+                    DelimitedExpression::PositiveLookahead(e) => check_expression(&e.expr)?,
+                    other => check_expression(other)?,
+                }
+            }
+            Ok(())
+        }
+        fn check_expression(expr: &DelimitedExpression) -> Result<()> {
+            match expr {
+                DelimitedExpression::Field(f) => {
+                    if let Some(Field_name::Identifier(name)) = &f.name {
+                        check_name("Field", name)?;
+                    }
+                    if !is_valid_ident(&f.typ) {
+                        bail!("Rule name '{}' cannot be used as a Rust identifier", f.typ);
+                    }
+                    Ok(())
+                }
+                DelimitedExpression::Group(e) => check_fields(&e.body),
+                DelimitedExpression::Optional(e) => check_fields(&e.body),
+                DelimitedExpression::Closure(e) => check_fields(&e.body),
+                DelimitedExpression::NegativeLookahead(e) => check_expression(&e.expr),
+                DelimitedExpression::PositiveLookahead(e) => check_expression(&e.expr),
+                _ => Ok(()),
+            }
+        }
+        for rule_entry in &self.rules {
+            match rule_entry {
+                Grammar_rules::Rule(rule) => {
+                    check_name("Rule", &rule.name)?;
+                    for directive in &rule.directives {
+                        if let DirectiveExpression::CheckDirective(c) = directive {
+                            check_path("check function", &c.function)?;
+                        }
+                    }
+                    check_fields(&rule.definition)
+                        .with_context(|| format!("Error processing rule {}", rule.name))?;
+                }
+                Grammar_rules::CharRule(rule) => {
+                    check_name("Rule", &rule.name)?;
+                    for c in &rule.directives {
+                        check_path("check function", &c.function)?;
+                    }
+                }
+                Grammar_rules::ExternRule(rule) => {
+                    check_name("Rule", &rule.name)?;
+                    check_path("extern function", &rule.directive.function)?;
+                    if let Some(return_type) = &rule.directive.return_type {
+                        check_path("extern return type", return_type)?;
+                    }
+                }
+            }
+        }
+        Ok(())
     }
 }
 
